@@ -10,6 +10,8 @@
  *  VERIF_FAIL=op:substr:n:errno[,..] the n-th (1-based) matching call fails with errno, not performed
  *                                    n may be "a-b" for a range, or "*" for every call
  *  VERIF_PAUSE=k:file      block at the k-th state-changing call until `file` exists
+ *  VERIF_PAUSE_OPEN=k:file block at the k-th read-only open() of a file whose name starts with "content" (snapraid reads its content
+ *                          files only after taking the lock) until `file` exists; a pause point for commands that change no state
  *  VERIF_CLOCK=t           time(), gettimeofday(), clock_gettime(CLOCK_REALTIME) return t
  *  VERIF_URANDOM=seed      open("/dev/urandom") yields a seeded stream
  *  VERIF_JITTER=seed:permille:maxus  random yields/sleeps before in-scope pread/pwrite
@@ -49,6 +51,7 @@ static long kill_k = -1;
 static int kill_mode; /* 0 before 1 after 2 short */
 static long pause_k = -1;
 static char *pause_file;
+static long pause_open_k = -1, ro_open_count;
 static long clock_t0 = -1;
 static long urandom_seed = -1;
 static long jitter_seed = -1, jitter_permille, jitter_maxus;
@@ -150,6 +153,8 @@ static void init(void)
 	}
 	e = getenv("VERIF_PAUSE");
 	if (e && *e) { const char *c = strchr(e, ':'); pause_k = atol(e); if (c) pause_file = strdup(c + 1); }
+	e = getenv("VERIF_PAUSE_OPEN");
+	if (e && *e) { const char *c = strchr(e, ':'); pause_open_k = atol(e); if (c) pause_file = strdup(c + 1); }
 	e = getenv("VERIF_CLOCK");
 	if (e && *e) clock_t0 = atol(e);
 	e = getenv("VERIF_URANDOM");
@@ -260,6 +265,13 @@ static void jitter(void)
 	}
 }
 
+static int is_content_name(const char *path)
+{
+	const char *b = strrchr(path, '/');
+	b = b ? b + 1 : path;
+	return strncmp(b, "content", 7) == 0;
+}
+
 /* pre-hook for a state-changing call; returns: 0 proceed, 1 proceed then die, 2 short write then die */
 static volatile int paused;
 
@@ -316,6 +328,16 @@ static int do_open(int is64, const char *path, int flags, mode_t mode)
 	if (flags & (O_CREAT | O_TRUNC)) {
 		check_signal("creat", path);
 		act = sc_pre("creat", path);
+	} else if (pause_open_k >= 0 && pause_file && (flags & O_ACCMODE) == O_RDONLY && is_content_name(path) && ro_open_count++ == pause_open_k) {
+		struct stat st;
+		char wp[4200];
+		int wf;
+		pthread_mutex_unlock(&mu);
+		snprintf(wp, sizeof wp, "%s.waiting", pause_file);
+		wf = r_open(wp, O_WRONLY | O_CREAT, 0644);
+		if (wf >= 0) r_close(wf);
+		while (syscall(SYS_stat, pause_file, &st) != 0) usleep(1000);
+		pthread_mutex_lock(&mu);
 	}
 	pthread_mutex_unlock(&mu);
 	fd = is64 ? r_open64(path, flags, mode) : r_open(path, flags, mode);
